@@ -1003,7 +1003,11 @@ def run_bounce(case, ctx):
                     v2 = np.array([LD(s[f][p2]) for f in ("vx", "vy", "vz")])
                     return (m1 * (v1 * v1).sum() + m2 * (v2 * v2).sum()) / 2
                 kb, ka = ke(b), ke(a)
-                tol = 64 * R.EPS * (kb + ka)
+                # condition: the impulse is accurate to a few eps of the speeds involved, whichever particle carries
+                # the kinetic energy: (m1+m2) * (sum of all speeds)^2
+                spd = sum(np.sqrt(sum((LD(s_[f][q]) + (LD(g) if q == p1 else 0)) ** 2
+                                      for f, g in zip(("vx", "vy", "vz"), gb[3:]))) for s_ in (b, a) for q in (p1, p2))
+                tol = 64 * R.EPS * ((m1 + m2) * spd * spd + kb + ka)
                 if tol > 0:
                     ctx.stat_max("bounce_ke_err/tol", float(abs(ka - kb) / tol))
                 if abs(ka - kb) > tol:
@@ -1016,7 +1020,10 @@ def run_bounce(case, ctx):
         if e == 1.0 and (cfg["boundary"] != "shear" or cfg["nghost"][0] == 0):
             k0 = (s0["m"].astype(LD) * (R.vel(s0).astype(LD) ** 2).sum(axis=1)).sum() / 2
             k1 = (s1["m"].astype(LD) * (R.vel(s1).astype(LD) ** 2).sum(axis=1)).sum() / 2
-            tol = 64 * R.EPS * (k0 + k1) * (2 + len(maybe))
+            vmax = max(float(np.sqrt((R.vel(s0).astype(LD) ** 2).sum(axis=1)).max()),
+                       float(np.sqrt((R.vel(s1).astype(LD) ** 2).sum(axis=1)).max()))
+            tol = 64 * R.EPS * ((k0 + k1) * (2 + len(maybe))
+                                + sum(float(s0["m"][i] + s0["m"][j]) * (2 * vmax) ** 2 for i, j in maybe))
             if tol > 0:
                 ctx.stat_max("step_ke_err/tol", float(abs(k1 - k0) / tol))
             if abs(k1 - k0) > tol:
